@@ -171,6 +171,7 @@ def run(repo: Repo, rep: Report, tier: str) -> None:
         else:
             rep.ok("table-agreement", name, f"{len(tab)} codes agree")
     rep.floor("table entries", n_entries, 20000)
+    check_docs_agreement(repo, rep, tables)
     rep.extra["table_entries_checked"] = n_entries
 
     # ---- finality sources ----------------------------------------------------
@@ -253,3 +254,45 @@ def _delegate_scp_finality(repo, rep, tier):
 
     rep.rule("scp-finality", "in every SCP a response whose category is not Pending is the last one for its request, and every request gets one (C20's after-final / no-final rules)")
     delegate(repo, rep, tier, "C20", ("after-final", "no-final"), "scp-finality", "the SCP's decision that a response is (not) final does not follow the category of its status: a Warning / Failure / Cancel / Success status is followed by another response, or a request is left without a final one")
+
+
+def check_docs_agreement(repo, rep, tables: dict) -> None:
+    """The status tables are what the service classes look a peer's status up in; the documentation of each
+    service class lists the same codes for users. For every documentation file that names its table directly
+    (docs/service_classes/<stem>.rst <-> <STEM>_STATUS) each documented single code must be a key of that
+    table with the documented category: a mistyped key (0xB060 for 0xB006) leaves the documented code
+    unknown to the service class, which then treats a Warning the peer sent as a failure."""
+    import re
+
+    from ..loader import repo_root
+
+    rep.rule("docs-agreement", "every status code a service class's documentation lists is a key of that service class's table, with the documented category")
+    st = repo.mod("status")
+    d = repo_root() / "docs" / "service_classes"
+    if not d.is_dir():
+        rep.defer("docs/service_classes not found: the documentation oracle for the status tables is unavailable")
+        return
+    n_files = n_rows = 0
+    cat_word = {"success": "STATUS_SUCCESS", "warning": "STATUS_WARNING", "failure": "STATUS_FAILURE", "cancel": "STATUS_CANCEL", "pending": "STATUS_PENDING"}
+    for f in sorted(d.glob("*.rst")):
+        name = f.stem.upper() + "_STATUS"
+        tb = tables.get(name)
+        if not isinstance(tb, dict):
+            continue
+        n_files += 1
+        for code, cat in re.findall(r"^\|\s*(0x[0-9A-Fa-f]{4})\s*\|\s*(\w+)", f.read_text(encoding="utf-8"), re.M):
+            want = cat_word.get(cat.lower())
+            if want is None:
+                continue
+            c = int(code, 16)
+            if 0xC000 <= c <= 0xCFFF and c not in tb:
+                # the documentation also lists the implementation's own failure codes (handler raised, reply not
+                # encodable ...), which the SCP sets itself from the 0xCxxx 'unable to process' range: C21's concern
+                continue
+            n_rows += 1
+            ent = tb.get(c)
+            got = None if ent is None else str(ent[0] if isinstance(ent, (tuple, list)) else ent)
+            ok = ent is not None and got.lower() in (cat.lower(), want.lower())
+            rep.check(ok, "docs-agreement", f"status.{name}", f"{code} documented as {cat} in {f.name}: table has {ent if ent is None else got}", f"{f.name} documents status {code} ({cat}) for this service class but {name} {'has no entry for it' if ent is None else 'files it under ' + str(got)}: a peer's {code} is then not recognised as {cat} by the service class that uses the table", mod=st, node=st.assign_stmts[name][0] if name in st.assign_stmts else st.tree)
+    rep.floor("documentation files matched to a status table", n_files, 6)
+    rep.floor("documented status rows compared", n_rows, 40)
